@@ -56,6 +56,13 @@ class KGFn:
     def __str__(self):
         return get_fn_arity_str(self.arity)
 
+    def __getstate__(self):
+        # `_compiled` is a per-interpreter evaluation memo (a closure): it is neither picklable
+        # nor meaningful elsewhere, so a copied / transported function travels without it
+        state = self.__dict__.copy()
+        state.pop('_compiled', None)
+        return state
+
     def is_op(self):
         return isinstance(self.a, KGOp)
 
